@@ -39,9 +39,7 @@ KNOWN = set(S.HEADER_LIST) | set(S.REQUIRED)
 
 
 def _work_dir() -> str:
-    d = os.path.join(core.VERIF, ".work")
-    os.makedirs(d, exist_ok=True)
-    return d
+    return core.work_dir()
 
 
 def add_markers(spec: dict, max_tick: int) -> dict:
